@@ -1303,6 +1303,18 @@ func (w *_unionAssemblerRepr) AssembleValue() datamodel.NodeAssembler {
 	case schema.UnionRepresentation_Keyed:
 		key := w.curKey.val.String()
 		revKey := inboundMappedType(w.schemaType, stg, key)
+		if revKey == key {
+			// Not the discriminant of any member.
+			// It must not be mistaken for the name of a member type whose discriminant is another string.
+			for _, member := range w.schemaType.Members() {
+				if member.Name() == key && stg.GetDiscriminant(member) != key {
+					return _errorAssembler{schema.ErrNotUnionStructure{
+						TypeName: w.schemaType.Name(),
+						Detail:   fmt.Sprintf("no member with discriminant %q", key),
+					}}
+				}
+			}
+		}
 		w.curKey.val.SetString(revKey)
 
 		valAsm := (*_unionAssembler)(w).AssembleValue()
